@@ -8,7 +8,7 @@ RefTable == { LET r == RefStep(a, p, c) IN
               a \in Arrays, p \in -1..MaxLen, c \in Calls }
 ImplTable == { LET r == ImplStep(a, i, c) IN
                [a |-> a, i |-> i, op |-> c.op, t |-> c.t, ni |-> r.idx, ok |-> r.ret.ok, ts |-> r.ret.ts] :
-               a \in Arrays, i \in -1..(MaxLen + 1), c \in Calls }
+               a \in Arrays, i \in -1..(MaxLen + MaxCalls), c \in Calls }
 
 Export == /\ JsonSerialize("cursor_ref.json", [rows |-> {e \in RefTable : e.p <= Len(e.a)}])
           /\ JsonSerialize("cursor_impl.json", [rows |-> ImplTable])
